@@ -528,6 +528,12 @@ func classify(c *sc.Case, s summary) {
 	if start == end {
 		labels = append(labels, "run:empty")
 	}
+	if end-start > 64 {
+		labels = append(labels, "run:long(>64)")
+		if info != nil && info.Traits.Morx {
+			labels = append(labels, "run:long(>64)+font:morx")
+		}
+	}
 	if c.Orient == 2 {
 		labels = append(labels, "sideways")
 	}
